@@ -62,6 +62,11 @@ func (p *profile) Parse(rawUrl string) (*url.Url, error) {
 }
 
 func (p *profile) ParseRef(rawUrl, ref string) (*url.Url, error) {
+	// an empty base means no base, as for url.ParseRef and Parser.ParseRef
+	if rawUrl == "" {
+		return p.Parse(ref)
+	}
+
 	b, err := p.Parser.Parse(rawUrl)
 	if err != nil {
 		if errors.Type(err) == errors.MissingSchemeNonRelativeURL && p.defaultScheme != "" {
